@@ -143,29 +143,38 @@ def distinct_part(ctx, binary, res):
     cfgs = DISTINCT_QUICK + (DISTINCT_THOROUGH if ctx.thorough else [])
     runs = {}
 
-    def tlc_job(label, n, kname):
+    def job(label, n, kname):
+        # TLC -> edge cover -> replay on the real BlockPool, one thread per configuration
         c = dict(vb.CONFIGS)[n]
-        runs[label] = ctx.tlc("QuorumDistinct_MC", cfg="QuorumDistinct_gen.cfg", workers=1, timeout=2400,
-                              files={"VBFTConst.tla": mod, "QuorumDistinct_gen.cfg": distinct_cfg(n, c, kname)})
+        j = runs[label] = {"infra": []}
+        r = j["r"] = ctx.tlc("QuorumDistinct_MC", cfg="QuorumDistinct_gen.cfg", workers=1, timeout=2400,
+                             files={"VBFTConst.tla": mod, "QuorumDistinct_gen.cfg": distinct_cfg(n, c, kname)})
+        if r.status != "ok":
+            return
+        edges, inits = r.prints.get("EDGE", []), r.prints.get("INIT", [])
+        paths, ncov = ctx.cover(edges, inits, max_len=16)
+        if ncov < len({(vf.canon(e["from"]), vf.canon(e["act"]), vf.canon(e["to"])) for e in edges}) or not paths:
+            j["infra"].append("%s: cover misses edges" % label)
+        j["edges"] = len(edges)
+        j["acts"] = [[s["act"] for s in p["steps"]] for p in paths]
+        j["states"] = [[s["to"] for s in p["steps"]] for p in paths]
+        j["obs"] = vb.replay_pool(ctx, binary, n, c, j["acts"], "distinct-" + label)
 
-    th = [threading.Thread(target=tlc_job, args=j) for j in cfgs]
+    th = [threading.Thread(target=job, args=j) for j in cfgs]
     [t.start() for t in th]
     [t.join() for t in th]
     stats = {"steps": 0, "drift": 0, "done": 0, "unsound": 0}
     cov = {"paths": 0, "steps": 0, "states": 0, "edges": 0, "patterns": {}, "endorse_done_states": 0, "fallback_done_states": 0,
            "tight_endorse": 0, "tight_fallback": 0, "per_config": {}}
     for label, n, kname in cfgs:
-        r = runs.get(label)
+        j = runs.get(label, {})
+        r = j.get("r")
+        res["infra"] += j.get("infra", [])
         if r is None or r.status != "ok":
             res["infra"].append("TLC QuorumDistinct_MC %s: status=%s violated=%s %s (the invariants are about the SPEC: modelling problem)" % (
                 label, getattr(r, "status", None), getattr(r, "violated", None), getattr(r, "errors", [])[:2]))
             continue
-        edges, inits = r.prints.get("EDGE", []), r.prints.get("INIT", [])
-        paths, ncov = ctx.cover(edges, inits, max_len=16)
-        if ncov < len({(vf.canon(e["from"]), vf.canon(e["act"]), vf.canon(e["to"])) for e in edges}) or not paths:
-            res["infra"].append("%s: cover misses edges" % label)
-        acts = [[s["act"] for s in p["steps"]] for p in paths]
-        states = [[s["to"] for s in p["steps"]] for p in paths]
+        acts, states, obs, nedges = j["acts"], j["states"], j["obs"], j["edges"]
         pats = {}
         for a in acts:
             for k in resend_patterns(a):
@@ -174,7 +183,6 @@ def distinct_part(ctx, binary, res):
                 "KN4com": ["commit-after-endorse", "recommit", "dup"], "KN7two": ["flip", "commit-after-endorse"]}[kname]
         if any(pats.get(k, 0) == 0 for k in want):
             res["infra"].append("vacuous model run %s: re-sending patterns %s not all generated (%s)" % (label, want, pats))
-        obs = vb.replay_pool(ctx, binary, n, dict(vb.CONFIGS)[n], acts, "distinct-" + label)
         if obs is None:
             res["infra"].append("%s: replay on the real BlockPool failed" % label)
             continue
@@ -205,11 +213,11 @@ def distinct_part(ctx, binary, res):
         cov["paths"] += len(acts)
         cov["steps"] += sum(len(a) for a in acts)
         cov["states"] += r.distinct
-        cov["edges"] += len(edges)
-        cov["per_config"][label] = {"N": n, "bounds": kname, "distinct": r.distinct, "edges": len(edges), "paths": len(acts),
+        cov["edges"] += nedges
+        cov["per_config"][label] = {"N": n, "bounds": kname, "distinct": r.distinct, "edges": nedges, "paths": len(acts),
                                     "patterns": pats, "distinctness_violations_on_real_pool": nv}
         ctx.log("distinct signers %s: TLC %d distinct / %d edges (%.0fs), %d paths replayed, patterns %s, violations %d" % (
-            label, r.distinct, len(edges), r.wall, len(acts), pats, nv))
+            label, r.distinct, nedges, r.wall, len(acts), pats, nv))
     cov["model_drift"] = stats["drift"]
     if cov["paths"] and not (cov["tight_endorse"] and cov["tight_fallback"]):
         res["infra"].append("vacuous: the real pool never decided with exactly the threshold number of distinct signers (endorse %d, fallback %d)" % (
